@@ -11,6 +11,8 @@ func main() {
 	switch os.Args[1] {
 	case "registry":
 		registryMain(os.Args[2:])
+	case "dispatch":
+		dispatchMain(os.Args[2:])
 	case "gated":
 		gatedMain(os.Args[2:])
 	default:
